@@ -16,8 +16,19 @@ def main(tier, seed, replay=None):
     for i in range(n):
         S = rng.randint(1, 6)
         par = i % 3 == 2
-        c = gen_problem(rng, quant=(8 if i % 6 else None), S=S, ctor=("mrhs_parallel" if par else "mrhs"))
+        big = i % 5 == 3
+        if big:
+            S = max(S, 2)
+        c = gen_problem(rng, quant=(8 if i % 6 else None), S=S, ctor=("mrhs_parallel" if par else "mrhs"),
+                        eps=(rng.choice([1e-3, 1e-2, -1e-3]) if big else None))
         Y = [o for o in c["build"] if o[0] == "obs"][-1]
+        if big:
+            # columns of very different magnitude together with a sizeable absolute threshold: what happens to one column (which
+            # singular directions are kept) must not depend on the size of another
+            sc0 = c["scalar"]
+            kcol = rng.randrange(S)
+            Y[2][kcol] = [hx(unhx(h) * 4096.0, sc0) for h in Y[2][kcol]]
+            c["meta"]["big_column"] = kcol
         if S >= 2 and i % 4 == 0:
             Y[2][1] = list(Y[2][0])                         # duplicated column
         if S >= 3 and i % 4 == 1:
